@@ -118,6 +118,23 @@ def normF (o : Opts) (ord : Kvs → Kvs) : Nat → JV → JV
 
 def norm (o : Opts) (ord : Kvs → Kvs) (v : JV) : JV := normF o ord (depth v + 1) v
 
+/-- a legitimate map iteration: the members, each once, in some order -/
+def IsOrder (ord : Kvs → Kvs) : Prop := ∀ l, (ord l).Perm l
+
+mutual
+  /-- the keys of every object are pairwise distinct (true of every Go map) -/
+  def distinctKeys : JV → Prop
+    | .arr xs => distinctKeysList xs
+    | .obj kvs => (kvs.map fun kv => kv.1).Nodup ∧ distinctKeysKvs kvs
+    | _ => True
+  def distinctKeysList : List JV → Prop
+    | [] => True
+    | x :: r => distinctKeys x ∧ distinctKeysList r
+  def distinctKeysKvs : Kvs → Prop
+    | [] => True
+    | (_, x) :: r => distinctKeys x ∧ distinctKeysKvs r
+end
+
 mutual
   /-- trees the property speaks about: simple/gen values (no big-number text), float text that is
   a number literal, keys of one object distinct after sanitising -/
